@@ -168,132 +168,6 @@ fn c19_requeue_restores_count_and_order() {
     std::mem::forget((shard, stats));
 }
 
-// ---------------------------------------------------------------- process_deletions (retirement of old generations)
-use crate::storage::io::verif_kani::{mk_disk, HOOKS_ON, RETIRE_CALLS, RETIRE_EXT, RETIRE_N, RETIRE_OK};
-
-/// One retirement entry through the real process_deletions. Scenario flags are concrete per harness (all
-/// symbolic at once: symex 360 s, solver out of memory at 24 GB); the sector and the device's answer stay
-/// symbolic. The real code must
-///  * (C02) never mark/release an acknowledged generation whose successor is not durable,
-///  * (C08) set RETIRED before looking at readers, and never mark or release while a reader pins the extent,
-///  * (C05) release exactly the entry's extent, only after the marker is durable, exactly once,
-///  * (C09) keep the entry for retry on every failure, never drop it.
-fn deletions_scenario(has_succ: bool, succ_durable: bool, want_reader: bool, marker_done: bool) {
-    unsafe {
-        HOOKS_ON = true;
-        RETIRE_OK = kani::any();
-    }
-    let disk_io = Arc::new(RwLock::new(mk_disk()));
-    let free_space = Arc::new(RwLock::new(mk_full(64)));
-    let stats = Arc::new(Statistics::new());
-    let format = get_format_ref(3);
-    let s: u64 = kani::any();
-    kani::assume(s >= 16 && s < 60);
-    let rec = Record::new(vec![b'k'], vec![1u8; 3], 10);
-    rec.sector.store(s, Ordering::Release);
-    let rec = Arc::new(rec);
-    if has_succ {
-        let succ = Arc::new(Record::new(vec![b'k'], vec![2u8; 3], 11));
-        succ.sector.store(if succ_durable { 61 } else { 0 }, Ordering::Release);
-        rec.link_successor(&succ);
-        std::mem::forget(succ);
-    }
-    let reader = if want_reader { rec.acquire_extent() } else { None };
-    let has_reader = reader.is_some();
-    let entry = WriteEntry::new(Operation::Delete, Arc::clone(&rec));
-    if marker_done {
-        entry.work_status.store(DELETE_MARKER_DURABLE, Ordering::Release);
-    }
-    stats.disk_usage.store(5 * FEOX_BLOCK_SIZE as u64, Ordering::Relaxed);
-    let mut retries = Vec::with_capacity(2);
-    let mut released = 0u64;
-    let r = process_deletions(&disk_io, &free_space, &stats, format, vec![entry], &mut retries, &mut released);
-    let freed = is_free(&free_space.read(), s);
-    let safe = !has_succ || succ_durable;
-    let (calls, n, ext, ok) = unsafe { (RETIRE_CALLS, RETIRE_N, RETIRE_EXT[0], RETIRE_OK) };
-    // the marker is written only for a safe, unpinned, not yet marked generation – with its exact extent
-    assert!((calls == 1) == (!marker_done && safe && !has_reader));
-    if calls == 1 {
-        assert!(n == 1 && ext.0 == s && ext.1 == 1);
-    }
-    // released only after a durable marker and with no reader; exactly this block; exactly once
-    assert!(freed == (!has_reader && (marker_done || (safe && ok))));
-    assert!(released == if freed { 1 } else { 0 });
-    assert!(free_space.read().get_total_free() == released * FEOX_BLOCK_SIZE as u64);
-    assert!(stats.disk_usage.load(Ordering::Relaxed) == (5 - released) * FEOX_BLOCK_SIZE as u64);
-    // nothing is forgotten: an entry that was not released is queued again
-    assert!(retries.len() == if freed { 0 } else { 1 });
-    // RETIRED is set as soon as retirement is attempted, even when a reader then blocks it (no new readers)
-    if !marker_done && safe {
-        assert!(rec.acquire_extent().is_none());
-    }
-    assert!(r.is_err() == (calls == 1 && !ok));
-    kani::cover!(true, "scenario executed to the end");
-    std::mem::forget(reader);
-    std::mem::forget((r, retries, rec, disk_io, free_space, stats));
-}
-
-#[kani::proof]
-#[kani::unwind(6)]
-#[kani::stub(FreeSpaceManager::update_fragmentation, noop_frag)]
-#[kani::stub(std::io::_eprint, stub_eprint)]
-#[kani::stub(std::sync::Arc::drop_slow, noop_drop_slow)]
-#[kani::stub(parking_lot::raw_rwlock::RawRwLock::lock_exclusive_slow, s_lock_ex)]
-#[kani::stub(parking_lot::raw_rwlock::RawRwLock::unlock_exclusive_slow, s_unlock_ex)]
-#[kani::stub(parking_lot::raw_rwlock::RawRwLock::lock_shared_slow, s_lock_sh)]
-#[kani::stub(parking_lot::raw_rwlock::RawRwLock::unlock_shared_slow, s_unlock_sh)]
-fn c08_deletions_marks_and_releases() { deletions_scenario(false, false, false, false) }
-#[kani::proof]
-#[kani::unwind(6)]
-#[kani::stub(FreeSpaceManager::update_fragmentation, noop_frag)]
-#[kani::stub(std::io::_eprint, stub_eprint)]
-#[kani::stub(std::sync::Arc::drop_slow, noop_drop_slow)]
-#[kani::stub(parking_lot::raw_rwlock::RawRwLock::lock_exclusive_slow, s_lock_ex)]
-#[kani::stub(parking_lot::raw_rwlock::RawRwLock::unlock_exclusive_slow, s_unlock_ex)]
-#[kani::stub(parking_lot::raw_rwlock::RawRwLock::lock_shared_slow, s_lock_sh)]
-#[kani::stub(parking_lot::raw_rwlock::RawRwLock::unlock_shared_slow, s_unlock_sh)]
-fn c08_deletions_durable_successor() { deletions_scenario(true, true, false, false) }
-#[kani::proof]
-#[kani::unwind(6)]
-#[kani::stub(FreeSpaceManager::update_fragmentation, noop_frag)]
-#[kani::stub(std::io::_eprint, stub_eprint)]
-#[kani::stub(std::sync::Arc::drop_slow, noop_drop_slow)]
-#[kani::stub(parking_lot::raw_rwlock::RawRwLock::lock_exclusive_slow, s_lock_ex)]
-#[kani::stub(parking_lot::raw_rwlock::RawRwLock::unlock_exclusive_slow, s_unlock_ex)]
-#[kani::stub(parking_lot::raw_rwlock::RawRwLock::lock_shared_slow, s_lock_sh)]
-#[kani::stub(parking_lot::raw_rwlock::RawRwLock::unlock_shared_slow, s_unlock_sh)]
-fn c02_deletions_waits_for_durable_successor() { deletions_scenario(true, false, false, false) }
-#[kani::proof]
-#[kani::unwind(6)]
-#[kani::stub(FreeSpaceManager::update_fragmentation, noop_frag)]
-#[kani::stub(std::io::_eprint, stub_eprint)]
-#[kani::stub(std::sync::Arc::drop_slow, noop_drop_slow)]
-#[kani::stub(parking_lot::raw_rwlock::RawRwLock::lock_exclusive_slow, s_lock_ex)]
-#[kani::stub(parking_lot::raw_rwlock::RawRwLock::unlock_exclusive_slow, s_unlock_ex)]
-#[kani::stub(parking_lot::raw_rwlock::RawRwLock::lock_shared_slow, s_lock_sh)]
-#[kani::stub(parking_lot::raw_rwlock::RawRwLock::unlock_shared_slow, s_unlock_sh)]
-fn c08_deletions_reader_blocks_marker() { deletions_scenario(false, false, true, false) }
-#[kani::proof]
-#[kani::unwind(6)]
-#[kani::stub(FreeSpaceManager::update_fragmentation, noop_frag)]
-#[kani::stub(std::io::_eprint, stub_eprint)]
-#[kani::stub(std::sync::Arc::drop_slow, noop_drop_slow)]
-#[kani::stub(parking_lot::raw_rwlock::RawRwLock::lock_exclusive_slow, s_lock_ex)]
-#[kani::stub(parking_lot::raw_rwlock::RawRwLock::unlock_exclusive_slow, s_unlock_ex)]
-#[kani::stub(parking_lot::raw_rwlock::RawRwLock::lock_shared_slow, s_lock_sh)]
-#[kani::stub(parking_lot::raw_rwlock::RawRwLock::unlock_shared_slow, s_unlock_sh)]
-fn c08_deletions_reader_blocks_release() { deletions_scenario(false, false, true, true) }
-#[kani::proof]
-#[kani::unwind(6)]
-#[kani::stub(FreeSpaceManager::update_fragmentation, noop_frag)]
-#[kani::stub(std::io::_eprint, stub_eprint)]
-#[kani::stub(std::sync::Arc::drop_slow, noop_drop_slow)]
-#[kani::stub(parking_lot::raw_rwlock::RawRwLock::lock_exclusive_slow, s_lock_ex)]
-#[kani::stub(parking_lot::raw_rwlock::RawRwLock::unlock_exclusive_slow, s_unlock_ex)]
-#[kani::stub(parking_lot::raw_rwlock::RawRwLock::lock_shared_slow, s_lock_sh)]
-#[kani::stub(parking_lot::raw_rwlock::RawRwLock::unlock_shared_slow, s_unlock_sh)]
-fn c05_deletions_release_after_durable_marker() { deletions_scenario(false, false, false, true) }
-
 /// The retirement path sizes an extent with format_extent_size; the allocate side uses the format's
 /// total_size.div_ceil(4096). They must agree in EVERY format version (v1 headers are 8 bytes shorter).
 #[kani::proof]
